@@ -241,6 +241,43 @@ def run(ctx):
                   msg=f"{uid}: `{short(par if isinstance(par, (ast.Await, ast.Call)) else n)}` runs run_coro inside the caller's task: when it ends its cleanup removes the still-running "
                   f"caller from our_tasks, fires the caller's done callbacks early and forgets its unique names and context", key=f"run_coro caller {uid}", node=n, rel=uid.split("::")[0])
 
+    ctx.rule("R14.10", "every run of a script function - trigger occurrence, service call, task.create - is started with its evaluator, so that the run has a done-callback "
+             "table (task.add_done_callback on the current task works in all of them)", floor=5)
+    RUN_SITES = ["trigger.py::TrigInfo.call_action", "decorator.py::FunctionDecoratorManager.dispatch",
+                 "eval.py::EvalFunc.trigger_init.pyscript_service_factory.pyscript_service_handler", "decorators/service.py::ServiceDecorator._service_callback",
+                 "trigger.py::TrigTime.init.user_task_create_factory.user_task_create"]
+    for uid in RUN_SITES:
+        f = program.func(uid)
+        creates = [n for n in body_walk(f) if isinstance(n, ast.Call) and call_name(n) == "Function.create_task"]
+        if not creates:
+            raise AnalysisError(f"{uid}: Function.create_task call not found")
+        regs = [n for n in body_walk(f) if isinstance(n, ast.Call) and call_name(n) == "Function.task_done_callback_ctx"]
+        for c in creates:
+            kw = {k.arg: k.value for k in c.keywords}
+            given = ("ast_ctx" in kw and not (isinstance(kw["ast_ctx"], ast.Constant) and kw["ast_ctx"].value is None)) or len(c.args) > 1 or bool(regs)
+            ctx.check(given, "R14.10", uid, "the run's task is created with its evaluator", msg=f"{uid}: `{short(c)}` starts the run without an evaluator and nothing registers one: the task has no "
+                      f"done-callback table, task.add_done_callback(task.current_task(), ...) inside the run raises KeyError and no callback runs when it ends", key="run without callback table",
+                      node=c, rel=uid.split("::")[0])
+
+    ctx.rule("R14.11", "done callbacks are kept one per callback *function*: an object that is built anew on every access (the bound method made by a descriptor's __get__) "
+             "compares and hashes by what it denotes (function, instance), so adding it twice keeps one entry and task.remove_done_callback finds it", floor=1)
+    tree = program.module("eval.py")
+    classes = {c.name: c for c in tree.body if isinstance(c, ast.ClassDef)}
+    made = []
+    for c in classes.values():
+        for f in [f for f in c.body if isinstance(f, ast.FunctionDef) and f.name == "__get__"]:
+            for n in ast.walk(f):
+                if isinstance(n, ast.Return) and isinstance(n.value, ast.Call) and isinstance(n.value.func, ast.Name) and n.value.func.id in classes:
+                    made.append((c.name, n.value.func.id, n))
+    if not made:
+        raise AnalysisError("no descriptor __get__ that builds a bound-method object was found in eval.py")
+    for owner, clsname, node in made:
+        own = {f.name for f in classes[clsname].body if isinstance(f, ast.FunctionDef)}
+        ctx.check({"__eq__", "__hash__"} <= own, "R14.11", f"eval.py::{clsname}", f"{clsname} (made anew by {owner}.__get__) defines __eq__ and __hash__",
+                  msg=f"{owner}.__get__ returns a new {clsname} on every `obj.method` access and {clsname} lacks {sorted({'__eq__', '__hash__'} - own)}: two accesses of one method are two "
+                  f"different dictionary keys - task.add_done_callback(t, obj.m) twice runs it twice, task.remove_done_callback(t, obj.m) removes nothing",
+                  key=f"bound method identity {clsname}", node=node, rel="eval.py")
+
     ctx.rule("R14.7", "done callbacks that add or remove callbacks of the finishing task do not disturb the others: every remaining callback still runs once, run_coro ends normally and forgets every name", floor=4)
     callback_mutation_table(ctx, program, "R14.7")
 
